@@ -473,3 +473,24 @@ class FifoStopH(Harness):
 
 HARNESSES = {'buffer': BufferH, 'parmap': ParmapH, 'async_adapters': AsyncAdaptersH, 'fifo_stop': FifoStopH}
 PLAN = {'quick': ['buffer', 'parmap', 'async_adapters', 'fifo_stop'], 'thorough': ['buffer', 'parmap', 'async_adapters', 'fifo_stop']}
+
+
+def twins(tier, pool, stats):
+    """conformance: Stream.parmap with executor='process' on real worker processes (early stop and failure: close() returns, no worker process left)"""
+    import os
+    import subprocess
+    from mc.explore import PY, REPO, VERIF
+    env = dict(os.environ, PYTHONPATH=os.path.join(REPO, 'src'))
+    try:
+        r = subprocess.run([PY, os.path.join(VERIF, 'checks', 'twins', 'c01_proc.py'), 'stop'], capture_output=True, text=True,
+                           timeout=300, env=env)
+        ok = r.returncode == 0
+        detail = (r.stdout + r.stderr)[-600:]
+    except subprocess.TimeoutExpired:
+        ok = False
+        detail = 'watchdog: the real-process parmap twin did not finish within 300 s'
+    if not ok:
+        stats[0].violations.setdefault('process-executor-twin', dict(count=1, choices=[], no_replay=True,
+                                                                     detail=f'real worker processes: {detail}'))
+        return 0
+    return int(r.stdout.split()[-1])
